@@ -56,6 +56,10 @@ func needExt(module string) {
 // ---------- types ----------
 
 func extLeanType(t types.Type) (string, bool) {
+	if !k17On() {
+		return "", false
+	}
+
 	if s, ok := t.Underlying().(*types.Slice); ok {
 		if in, ok := s.Elem().Underlying().(*types.Slice); ok {
 			if lt, err := leanType(in.Elem()); err == nil && lt == "Int" {
@@ -102,6 +106,10 @@ var extCallees = map[string]extCallee{} // "<module>|<pkg>.<Func | Recv.Method>"
 
 // extRegister is called at the end of genFuncM.
 func extRegister(e entry, fd *ast.FuncDecl, fc *fnCtx, nres int) {
+	if !k17On() {
+		return
+	}
+
 	var fields []*ast.Field
 	if fd.Recv != nil {
 		fields = append(fields, fd.Recv.List...)
@@ -223,6 +231,10 @@ func (fc *fnCtx) extOutTargets(ci extCallee, args []ast.Expr) ([]string, error) 
 }
 
 func extAssignedByCall(call *ast.CallExpr, assigned, whole map[string]bool) {
+	if !k17On() {
+		return
+	}
+
 	if curFC == nil {
 		return
 	}
@@ -239,6 +251,10 @@ func extAssignedByCall(call *ast.CallExpr, assigned, whole map[string]bool) {
 }
 
 func (fc *fnCtx) extUsedByCall(call *ast.CallExpr, used map[string]bool) {
+	if !k17On() {
+		return
+	}
+
 	if fc.m != nil && fc.m.region {
 		if rt := fc.p.TypesInfo.TypeOf(call); rt != nil {
 			if pname, _, _, _, ok := fc.opaqueCall(call, rt); ok {
@@ -355,6 +371,10 @@ func (fc *fnCtx) extCall(ci extCallee, args []ast.Expr, lvl int) (pre string, re
 // ---------- expressions ----------
 
 func (fc *fnCtx) extLexpr(ex ast.Expr) (string, bool, error) {
+	if !k17On() {
+		return "", false, nil
+	}
+
 	if se, ok := ex.(*ast.SliceExpr); ok && !se.Slice3 {
 		t := fc.p.TypesInfo.TypeOf(se.X)
 		if _, isSlice := t.Underlying().(*types.Slice); isSlice {
@@ -393,6 +413,10 @@ func (fc *fnCtx) extLexpr(ex ast.Expr) (string, bool, error) {
 }
 
 func (fc *fnCtx) extExpr(ex ast.Expr) (string, bool, error) {
+	if !k17On() {
+		return "", false, nil
+	}
+
 	switch x := ex.(type) {
 	case *ast.IndexExpr:
 		// m[i][j]
@@ -456,6 +480,10 @@ func hasContinue(body []ast.Stmt) bool {
 }
 
 func (fc *fnCtx) extStmt(s ast.Stmt, rest []ast.Stmt, lvl int) (string, bool, error) {
+	if !k17On() {
+		return "", false, nil
+	}
+
 	cont := func(prefix string) (string, bool, error) {
 		r, err := fc.mblock(rest, lvl)
 		if err != nil {
